@@ -997,6 +997,8 @@ fn run_direct(rn: &mut Runner, thorough: bool) {
         samples.push((0..n).map(|i| (i as f64 + 0.5) / n as f64).collect());
     }
     samples.push(vec![0.5; 100]);
+    // all observations far out in the upper tail of every reference law: D ~ 1 with n = 500
+    samples.push((0..500).map(|i| 40.0 + i as f64 * 0.01).collect());
     for d in &samples {
         for dist in ["Normal01", "Uniform01", "Exp1"] {
             for mth in ["Less", "Greater", "TwoSidedExact", "TwoSidedAsymptotic", "TwoSidedApproximate"] {
@@ -1024,6 +1026,11 @@ fn run_direct(rn: &mut Runner, thorough: bool) {
         ((0..12).map(|i| i as f64).collect(), (0..12).map(|i| i as f64 + 100.0).collect()),
         ((0..101).map(|i| i as f64).collect(), (0..100).map(|i| i as f64 + 0.5).collect()),
         ((0..2000).map(|i| (i * i) as f64).collect(), (0..2000).map(|i| (i * i) as f64).collect()),
+        // large, completely separated / strongly shifted samples: D*sqrt(n_eff) ~ 20 and beyond, where every term
+        // of the Kolmogorov series underflows to 0
+        ((0..800).map(|i| i as f64).collect(), (0..800).map(|i| i as f64 + 1000.0).collect()),
+        ((0..2000).map(|i| i as f64).collect(), (0..2000).map(|i| i as f64 + 1700.0).collect()),
+        ((0..700).map(|i| i as f64).collect(), (0..300).map(|i| i as f64 * 0.5 + 5000.0).collect()),
     ];
     for (x, y) in &pairs {
         let same = if x == y { "identical," } else { "" };
